@@ -386,6 +386,34 @@ def w4(fb, chk, tag=""):
         else:
             chk.check(got == {want}, "W4", key, "decodes %s" % want,
                       "arm %s decodes body as %s, the specification says %s" % (code, sorted(map(str, got)), want), hr.loc())
+    # ---- reply body types: backend arm's reply and frontend's decode agree with the specification
+    reply_senders = {"send_reply_message", "send_reply_with_payload", "send_message", "send_message_with_payload"}
+    server_fns = [x for x in fb.find(self_adt="BackendReqHandler") if not x.trait]
+    for code, row in sorted(wire.FRONTEND_TABLE.items()):
+        if row["reply"] == "ack" or (row.get("feature") == "postcopy" and not has_postcopy):
+            continue
+        want = wire.RUST_NAME[row["reply"][1]]
+        if "B" in row["impl"]:
+            got = set()
+            for g in server_fns:
+                gm = must_of(fb, g)
+                for bb, t, c in sites(g, name=reply_senders):
+                    if g.key == hr.key:
+                        if code not in common.arm_codes(mh, bb):
+                            continue
+                    elif not (g.name.lower().replace("_", "") in code.lower().replace("_", "") or code.lower().replace("_", "") in g.name.lower().replace("_", "")):
+                        continue
+                    bt = body_type_of_site(t, c)
+                    if bt and len(bt) > 2:
+                        got.add(bt)
+            chk.check(got == {want}, "W4", "%sbackend-reply:%s" % (tag, code), "reply body %s" % want,
+                      "arm %s replies with body type(s) %s; the specification's reply is %s" % (code, sorted(got), want), hr.loc())
+        if "F" in row["impl"] and not (code == "SET_LOG_BASE"):
+            f = fm.get(row["fe"])
+            if f is not None:
+                got = {body_type_of_site(t, c) for bb, t, c in sites(f, name={"recv_reply", "recv_reply_with_files", "recv_reply_with_optional_files", "recv_reply_with_payload"})}
+                chk.check(got == {want}, "W4", "%sfrontend-reply:%s" % (tag, code), "reply decoded as %s" % want,
+                          "%s decodes the reply as %s; the specification's reply is %s" % (f.short, sorted(map(str, got)), want), f.loc())
     # ---- backend->frontend proxy
     for code, row in sorted(wire.BACKEND_TABLE.items()):
         if not row.get("proxy"):
